@@ -29,7 +29,7 @@ def gen_cases(tier, seed):
     n = 220 if tier == "quick" else 5000
     r = random.Random(seed * 141650939 + 19)
     for i in range(n):
-        nseg = r.choice([0, 1, 2, 3, 5, 10, 31, 32, 33, 40, 64, 65, 100] if tier == "thorough" else [0, 1, 2, 3, 5, 10, 32, 33, 40, 65])
+        nseg = r.choice([0, 1, 2, 3, 5, 10, 31, 32, 33, 40, 64, 65, 66, 96, 97, 100, 130, 200] if tier == "thorough" else [0, 1, 2, 3, 5, 10, 32, 33, 40, 65, 70, 100, 130])
         segs, pos = [], 0
         first0 = r.random() < 0.4
         if not first0:
@@ -37,7 +37,8 @@ def gen_cases(tier, seed):
         for k in range(nseg):
             ln = r.choice([1, 100, PAGE - 1, PAGE, PAGE + 1, 3 * PAGE + 5, 20000, 65536])
             segs.append([pos, ln])
-            pos += ln + r.choice([PAGE, 2 * PAGE, 64 * 1024, 1 << 20, (1 << 20) + 123, 7 * PAGE + 3])
+            # many-segment files keep every segment in an extent of its own (gap of at least two blocks)
+            pos += ln + (r.choice([PAGE, 2 * PAGE, 64 * 1024, 1 << 20, (1 << 20) + 123, 7 * PAGE + 3]) if nseg < 30 else r.choice([3 * PAGE, 64 * 1024, 7 * PAGE + 3, 1 << 18]))
         lastbyte = r.random() < 0.4 and segs
         size = (segs[-1][0] + segs[-1][1]) if lastbyte else pos + r.choice([0, 1, 4095, 4096, 100000])
         if not segs:
